@@ -397,7 +397,8 @@ def cli_update_preserves(ctx):
             st['runs'] += 1
             st['sub_directory'] += 1 if upath else 0
             replay = {'argv': argv, 'path': upath, 'exit': rc, 'log': items, 'meta': meta_of(c), 'tree': PT.describe(t)}
-            isman = lambda p: os.path.basename(p).startswith('Manifest')
+            # (a file that carries the name but does not parse as a Manifest is a data file like any other)
+            isman = lambda p: os.path.basename(p).startswith('Manifest') and (p not in pre or OX.parse(p, pre[p]) is not None)
             for p in sorted(set(pre) | set(post)):
                 if not isman(p) and pre.get(p) != post.get(p):
                     if not known_finding(ctx, 'C10', c, 'foreign-file', p + ':cli'):
@@ -424,6 +425,38 @@ def cli_update_preserves(ctx):
             elif str(ts0) != str(ts1):
                 st['timestamp_refreshed_whole_tree'] += 1
     ctx.count('cli:update-preserves', st['runs'], st['runs'], dist=st)
+    # the ebuild profiles create Manifests of their own accord: never on top of a file that is not a Manifest
+    import p_repo as PR
+    n2 = kept = 0
+    with ET.Scratch() as sc:
+        for _ in range(50 if quick else 500):
+            c = PR.gen_repo(r)
+            t = c.tree
+            cand = sorted(d for d, ro in c.meta['roles'].items() if ro in ('package', 'category', 'eclass', 'profiles', 'licenses'))
+            cand = [d for d in cand if t.lookup(d + '/Manifest') is None and t.lookup(d + '/Manifest.gz') is None]
+            if not cand:
+                continue
+            jd = r.choice(cand)
+            junk = r.choice([b'this is not a Manifest\n', b'<<<<<<< HEAD\nDATA x 1\n=======\n', b'\x00\x01\x02binary'])
+            t.add_file(jd + '/Manifest', junk)
+            prof = r.choice(['ebuild', 'old-ebuild'])
+            b, s = sc.fresh()
+            try:
+                t.realise(b, s)
+                pre = {p: d for p, d, mt in ET.list_real_files(b)}
+                with ET.ScandirOrder(GT.order_key_for(c.meta['order_seed'])):
+                    rc, items = PT.run_cli_collect(['gemato', r.choice(['create', 'create', 'update']), '-p', prof, b])
+                post = {p: d for p, d, mt in ET.list_real_files(b)}
+            finally:
+                sc.cleanup(b, s)
+            n2 += 1
+            bad = [p for p in sorted(pre) if not (os.path.basename(p).startswith('Manifest') and OX.parse(p, pre[p]) is not None) and pre[p] != post.get(p)]
+            if bad:
+                ctx.violation('spec', f'gemato -p {prof} (exit {rc}) changed {bad[:3]}: not Manifest files (one only carries the name)',
+                              {'profile': prof, 'junk_file': jd + '/Manifest', 'exit': rc, 'log': items, 'changed': bad[:6], 'dirs': c.meta['dirs'][:20]})
+            else:
+                kept += 1
+    ctx.count('cli:profile-preserves', n2, n2, dist={'runs_leaving_every_data_file_alone': kept})
 
 
 # --------------------------------------------------------------------------- C12
